@@ -19,7 +19,7 @@ func init() {
 			"(4) a send stores the new code, a fresh hash, the send time, sendCount+1 and resets the attempt counter, writes the entry to the cache only after the send checks passed and returns that hash; (5) the send check refuses under `now-setTime < MinInterval`, refreshes the window when it elapsed, and otherwise refuses under sendCount > MaxCount. " +
 			"NOT decided: time-dependent regimes between the always/never extremes, code length in mock mode, the SMS provider.",
 		Assumptions: []string{"the index callback follows rand.Intn's contract [0,n)"},
-		Floors:      map[string]int{"C19.key-agreement": 5, "C19.alphabet": 1, "C19.verify": 1, "C19.send-update": 1, "C19.send-check": 1, "C19.mock-code": 1},
+		Floors:      map[string]int{"C19.key-agreement": 7, "C19.alphabet": 1, "C19.verify": 1, "C19.send-update": 1, "C19.send-check": 1, "C19.mock-code": 1},
 		Run:         runC19,
 	})
 }
@@ -123,6 +123,33 @@ func runC19(c *Ctx) {
 					}
 				}
 				if !cur.ok {
+					// the same key spelled as a concatenation: area + "-" + phone  ==  Sprintf("%s-%s", area, phone)
+					var flat func(x *Sym) bool
+					flat = func(x *Sym) bool {
+						x = x.strip()
+						if x.Kind == KBin && x.Op == token.ADD {
+							return flat(x.Args[0]) && flat(x.Args[1])
+						}
+						if lit, isS := constStr(x); isS {
+							cur.format += strings.ReplaceAll(lit, "%", "%%")
+							return true
+						}
+						for pi, p := range t.Params {
+							if x.Key() == p.Key() {
+								cur.format += "%s"
+								cur.args = append(cur.args, fn.Params[pi].Name())
+								return true
+							}
+						}
+						return false
+					}
+					if k.Kind == KBin && k.Op == token.ADD && flat(k) {
+						cur.ok = true
+					} else {
+						cur = keyShape{}
+					}
+				}
+				if !cur.ok {
 					c.violated("C19.key-agreement", name, e.Pos, "the cache key is not built by a single fmt.Sprintf from the caller's area code and phone: "+c.short(k.Key()), c.witness(t, i)...)
 					continue
 				}
@@ -135,6 +162,13 @@ func runC19(c *Ctx) {
 		if found {
 			shapes[fn.Name()] = sh
 			wantArgs := "areaCode,phone"
+			// the two components are separated by a literal: without it ("1","2645551234") and ("12","645551234")
+			// share one key and a code sent to one verifies for the other
+			if parts := strings.Split(sh.format, "%s"); len(parts) == 3 && parts[1] == "" {
+				c.violated("C19.key-agreement", name+" separator", fn.Pos(), fmt.Sprintf("the cache key %q joins area code and phone without a separator: different (area, phone) pairs with the same concatenation share one cache item", sh.format), "")
+			} else {
+				c.holds("C19.key-agreement", name+" separator", fn.Pos(), "")
+			}
 			c.check(strings.Join(sh.args, ",") == wantArgs, "C19.key-agreement", name+" roles", fn.Pos(), fmt.Sprintf("%q(%s)", sh.format, wantArgs), fmt.Sprintf("the key is built from (%s) instead of (area code, phone)", strings.Join(sh.args, ",")))
 		} else {
 			c.undecided("C19.key-agreement", name, fn.Pos(), "no cache access found")
@@ -213,6 +247,12 @@ func runC19(c *Ctx) {
 					for _, e := range t.Events {
 						if e.Kind == EvCall && e.callName() == "(time.Time).Sub" && e.Res.Key() == f.X.Key() {
 							if _, a := isInitOfField(e.Args[1], fSet); a {
+								isAge = true
+							}
+						}
+						// time.Since(setTime) is time.Now().Sub(setTime)
+						if e.Kind == EvCall && e.callName() == "time.Since" && e.Res.Key() == f.X.Key() && len(e.Args) == 1 {
+							if _, a := isInitOfField(e.Args[0], fSet); a {
 								isAge = true
 							}
 						}
@@ -522,6 +562,25 @@ func (c *Ctx) checkMockCode(rel string) {
 				if !(r.Args[2].Kind == KConst && r.Args[2].Name == "none" && diffOK(low, 0)) && ok {
 					ok = false
 					c.violated("C19.mock-code", cons, fn.Pos(), "for a long phone number the mock code is not its last CodeLen characters: "+c.short(r.Key()), c.witness(t, len(t.Events)-1)...)
+				}
+			}
+		}
+	}
+	// the padding may also be produced at once: strings.Repeat("0", CodeLen-len(phone)) + phone
+	for _, t := range traces {
+		if t.End != EndReturn || len(t.Ret) != 1 {
+			continue
+		}
+		r := t.Ret[0]
+		if r.Kind == KBin && r.Op == token.ADD && r.Args[1].Key() == phone.Key() {
+			for _, e := range t.Events {
+				if e.Kind == EvCall && e.callName() == "strings.Repeat" && e.Res.Key() == r.Args[0].Key() && len(e.Args) == 2 {
+					if pad, isS := constStr(e.Args[0]); isS && len(pad) == 1 && diffOK(lf(e.Args[1]), 0) {
+						loops++
+					} else if ok {
+						ok = false
+						c.violated("C19.mock-code", cons, e.Pos, "the padding is not CodeLen - len(phone) copies of one character: the mock code does not have the configured length", c.witness(t, len(t.Events)-1)...)
+					}
 				}
 			}
 		}
